@@ -189,8 +189,15 @@ impl ReaderGroup {
         new_group
     }
 
-    pub fn get_max_diff(&self, cur_writer: usize) -> Option<Index> {
-        let mut max_diff: usize = 0;
+    /// `none_left` is the distance to report when no stream is registered at all
+    pub fn get_max_diff(&self, cur_writer: usize, none_left: Index) -> Option<Index> {
+        // With no stream left (the last receiver is on its way out) nothing may be
+        // overwritten any more: the whole ring counts as outstanding
+        let mut max_diff: usize = if self.readers.is_empty() {
+            none_left as usize
+        } else {
+            0
+        };
         unsafe {
             for reader_ptr in &self.readers {
                 // If a reader has passed the writer during this function call
@@ -225,14 +232,14 @@ impl ReadCursor {
         }
     }
 
-    pub fn get_max_diff(&self, cur_writer: usize) -> Option<Index> {
+    pub fn get_max_diff(&self, cur_writer: usize, none_left: Index) -> Option<Index> {
         loop {
             unsafe {
                 let first_ptr = self.readers.load(CONSUME);
                 #[cfg(multiqueue2_verif)]
                 crate::verif_hooks::touch(first_ptr as usize, "get_max_diff");
                 let rg = &*first_ptr;
-                let rval = rg.get_max_diff(cur_writer);
+                let rval = rg.get_max_diff(cur_writer, none_left);
                 // This check ensures that the pointer hasn't changed
                 // We must first read the diff, *and then* check the pointer
                 // for changes.
